@@ -1052,6 +1052,9 @@ def solve(objfun, x0, h=None, lh=None, prox_uh=None, argsf=(), argsh=(), argspro
     if exit_info is None and rhobeg <= 0.0:
         exit_info = ExitInformation(EXIT_INPUT_ERROR, "rhobeg must be strictly positive")
 
+    if exit_info is None and rhobeg > 1.0e10:
+        exit_info = ExitInformation(EXIT_INPUT_ERROR, "rhobeg must be at most 1e10 (the largest trust region radius used)")
+
     if exit_info is None and rhoend <= 0.0:
         exit_info = ExitInformation(EXIT_INPUT_ERROR, "rhoend must be strictly positive")
 
